@@ -84,6 +84,10 @@ func (xp xpathImpl) resolveOperator(oper *xpath.Operator, ident string, s *Selec
 	if err != nil {
 		return false, err
 	}
+	if a == nil {
+		// a leaf without a value satisfies no comparison, whatever the operator
+		return false, nil
+	}
 	switch oper.Oper {
 	case "=":
 		return val.Equal(a, b), nil
